@@ -587,9 +587,9 @@ def r4_property_list_owners(repo=None):
                 else:
                     r.violation(LIB, fname, c.nsrc[:90], "the dataset creation property list is modified outside the constructor "
                                 "(fill value / fill time / allocation settings decide what unwritten slots read as)", line=c.line)
-    if n < 20:
-        raise AnalysisError("only %d uses of dataset_prop found" % n)
-    r.guard(20)
+    if n < 6:
+        raise AnalysisError("only %d uses of dataset_prop found (23 on the reference tree)" % n)
+    r.guard(6)
     return r
 
 
